@@ -13,8 +13,16 @@ VERIF = os.path.dirname(os.path.dirname(os.path.abspath(__file__)))
 def main():
     name = sys.argv[1]
     prop = name.split("-")[0]
-    checks = sys.argv[2:] or [prop]
     sd = os.path.join(VERIF, "seeded", name)
+    if prop.startswith("F_"):
+        # file-focused seed: the property it breaks is named on the first line of its notes ("property: C07")
+        try:
+            first = open(os.path.join(sd, "notes.md"), encoding="utf-8").read()
+            m = re.search(r"property:\s*\**\s*(C\d\d)", first)
+            prop = m.group(1) if m else "C01"
+        except OSError:
+            prop = "C01"
+    checks = sys.argv[2:] or [prop]
     env = dict(os.environ)
     p = subprocess.run([os.path.join(VERIF, "tools", "seedcheck.sh"), sd] + checks, capture_output=True, text=True, env=env)
     out = "\n".join(l for l in p.stdout.splitlines() if "WARNING conda" not in l)
